@@ -291,7 +291,8 @@ pub fn spaces(tier: &str, _seed: u64) -> Vec<Box<dyn Space>> {
         if !thorough && li == nlists - 1 {
             continue; // PSD(3) trajectories are slow on the plain-Rust LAPACK shims: thorough tier only
         }
-        let xids: Vec<u64> = if thorough { (0..3u64.pow(n as u32)).collect() } else { vec![5] };
+        // thorough: every third planted x* (9 of 27 for n = 3, 3 of 9 for n = 2)
+        let xids: Vec<u64> = if thorough { (0..3u64.pow(n as u32)).step_by(3).collect() } else { vec![5] };
         if l.iter().any(|c| matches!(c, NN(k) if *k > 0)) && li != 5 {
             // loose "no bound" rows (1e18): the start-up shift into the cone has to cope with margins of -1e18
             v.push(Box::new(Traj {
